@@ -17,13 +17,27 @@ EXPECTED_CALLS = [
     "sendData: channel.IsValidOffset",
     "sendData: channel.NewReader",
     "sendData: handleError pb.SyncResponse_CLEAR",
+    "sendData: if reader.RunId() != reqSp.RunId",
+    "sendData: handleError pb.SyncResponse_ERROR",
     "sendData: Send pb.SyncResponse_META",
     "sendData: handleError pb.SyncResponse_FAULT",
     "sendData: Send pb.SyncResponse_CONTINUE",
     "sendData: handleError pb.SyncResponse_FAULT",
     "sendData: Send pb.SyncResponse_CONTINUE",
     "sendData: handleError pb.SyncResponse_FAULT",
+    "Run: leaderSp, err = rf.protoHandShake(cli)",
+    "Run: followerSp, err = rf.preSync(leaderSp)",
+    "Run: stream, resp, err = rf.metaSync(followerSp, cli)",
+    "Run: state = 5",
+    "Run: state = 4",
+    "Run: err = rf.rdbSync(followerSp, stream, resp)",
+    "Run: followerSp, err = rf.channel.StartPoint([]string{leaderSp.RunId})",
     "Run: channel.StartPoint",
+    "Run: state = 3",
+    "Run: err = rf.aofSync(followerSp, stream, resp)",
+    "Run: state = 1",
+    "Run: state++",
+    "Run: state = 1",
     "handleResp: if resp.GetCode() == pb.SyncResponse_FAILURE",
     "handleResp: if resp.GetCode() == pb.SyncResponse_ERROR",
     "handleResp: if resp.GetCode() == pb.SyncResponse_FAULT",
@@ -56,7 +70,10 @@ EXPECTED_CALLS = [
     "aofSync: channel.DelRunId",
     "aofSync: channel.SetRunId",
     "aofSync: channel.NewAofWritter",
-    "aofSync: handleResp/2"
+    "aofSync: handleResp/2",
+    "ServiceReplica: if role != SyncerRoleLeader || state != SyncerStateRun || leader == nil",
+    "ServiceReplica: return ErrReplicaNoRunning",
+    "ServiceReplica: return leader.Handle(wait, req, stream)"
 ]
 
 EXPECTED_CODES = ["CLEAR=3", "CONTINUE=1", "ERROR=11", "FAILURE=12", "FAULT=10", "HANDOVER=2", "META=0"]
@@ -67,53 +84,78 @@ PROP = {
     "required_theorems": [
         "GunYu.Props.C16.follower_prefix_of_leader",
         "GunYu.Props.C16.follower_prefix_of_leader_runs",
+        "GunYu.Props.C16.others_untouched",
         "GunYu.Props.C16.follower_contiguous",
         "GunYu.Props.C16.unjoinable_discards",
+        "GunYu.Props.C16.unjoinable_discards_session",
+        "GunYu.Props.C16.gap_discards",
+        "GunYu.Props.C16.collected_discards",
+        "GunYu.Props.C16.clear_deletes",
+        "GunYu.Props.C16.resynchronises",
         "GunYu.Props.C16.ahead_gets_handover",
     ],
     "expected_facts": {"c16_gap_threshold": 10485760, "c16_codes": EXPECTED_CODES, "c16_calls": EXPECTED_CALLS},
     "harness": [{"name": "C16", "pkg": "./syncer/", "test": "TestVerifC16",
                  "timeout_quick": "10m", "timeout_thorough": "40m"}],
     "driver": "drv_C16",
-    "rule": "one op per follower session: the real ReplicaLeader.Handle and the real ReplicaFollower steps (protoHandShake, preSync, metaSync, "
-            "rdbSync, aofSync, sequenced as ReplicaFollower.Run does) run in-process over a fake gRPC stream (generated stream interfaces over Go "
-            "channels) on two real channels (StoreChannel on t.TempDir() with LogSize 40/64/200/1MiB so that segments rotate, MemoryChannel). "
-            "Generated pairs: leader {nothing yet, snapshot only, snapshot+stream, stream only (snapshot collected), writer open/closed, not started, "
-            "no input ids, input already on a newer id (CLEAR), two input ids, >10 MiB ahead}; follower {nothing, id adopted but empty, same id: prefix / "
-            "equal / ahead / position collected at the leader / anywhere, with and without snapshot; another id current (below / within / above the "
-            "leader's range); disk: directories of both ids with either or none current, fresh process}. Chunking: the leader's own (4 KiB reads, "
-            "segment rotation) and a re-chunking transport (pieces of 1..1/3/17/100 bytes). Every pair runs uncut, then cut after EVERY message "
-            "(sample of 6 when more; 40 thorough), quiescent or abrupt (received bytes still in the follower's pipe are lost; the observed number "
-            "is an op input), then up to two further sessions on the same follower against a later leader state (grown, collected, new snapshot, "
-            "other run id, follower process restarted). Compared with the Lean model: every delivered message (code, id, aof, offset, size, data), "
-            "the outcome (stage, class) and the follower's store afterwards (disk: every run-id directory parsed from the files; memory: what the "
-            "channel serves). Monitors independent of the model: every byte/snapshot under an id is the leader's at the same (id, offset) or was "
-            "stored there before; segments contiguous, files and channel API agree, offered ranges readable; ahead follower => HANDOVER and "
-            "untouched cache. distinct_nontrivial = distinct (backend, relation, outcome, #messages, leader shape) with at least two CONTINUE chunks",
-    "trusted": ["fake gRPC transport c16Net (unbuffered in-order delivery, cut = every Recv/Send fails) in place of grpc-go",
+    "rule": "one op per pass of the REAL ReplicaFollower.Run (handshake .. first error; Run's error pauses are intercepted through its WaitCloser, "
+            "its logged error gives the outcome) talking over real gRPC on loopback (generated client/server code, real serialisation) to the REAL "
+            "syncer.ServiceReplica -> ReplicaLeader.Handle/sendData, on two real channels (StoreChannel on t.TempDir() with LogSize 40/64/200/1MiB so "
+            "that segments rotate, MemoryChannel). The harness owns the server-side stream wrapper (counts, re-chunks CONTINUE into pieces of "
+            "1..1/3/17/100 bytes, fails every Send after `cut` messages) and wrappers of the leader's Input and Channel that let the leader's own "
+            "input act between the reads of one request (gate+selfInspection | input ids+StartPoint | IsValidOffset | NewReader): PSYNC2 fail-over "
+            "(ids, relabel, new master's bytes), full resynchronisation under another id (setRunIds, DelRunId, SetRunId, snapshot+stream, also with "
+            "overlapping offsets), growth / collection / new snapshot, performed with the real channel operations in syncer/input.go's order. "
+            "Generated pairs: leader {nothing yet, snapshot only, snapshot+stream, stream only, writer open/closed, not started, not leader (gate), "
+            "no input ids, input already on a newer id (CLEAR), two input ids, tail appended while a stream reader is open}; follower {nothing, id "
+            "adopted but empty, same id: prefix / equal / ahead (also by 1-2 bytes) / collected at the leader / ending at the leader's first offset "
+            "-1,0,+1 / 10 MiB -1,0,+1 behind / anywhere, with and without snapshot; another id current (below / within / above the leader's range); "
+            "disk: directories of both ids with either or none current, fresh process}. Every pair runs uncut, then cut after EVERY message (sample "
+            "of 6 when more; 40 thorough), quiescent or abrupt (bytes still in the follower's pipe are lost; the observed number is an op input, and a "
+            "loss in a quiescent cut is a violation), then the SAME Run goes on against later leader states (or a new process after a restart); two "
+            "more sessions per pair with the leader's input acting mid-session. Compared with the Lean model: every message the follower read (code, "
+            "id, aof, offset, size, data), the outcome (stage, class) and the follower's store afterwards (disk: every run-id directory parsed from "
+            "the files; memory: what the channel serves). Monitors independent of the model: every byte/snapshot under an id is a byte some state of "
+            "the leader held under the same (id, offset) or was stored there before; segments contiguous, files and channel API agree, offered ranges "
+            "readable; ahead follower => HANDOVER and untouched cache (untouched also when cut earlier); the run fails when more than 2% of the cases "
+            "cannot be built or a class of the list above did not occur. corpus/C16: defect witnesses and the boundary states. "
+            "distinct_nontrivial = distinct (backend, relation, outcome, #messages, leader shape, static?) with at least two CONTINUE chunks",
+    "trusted": ["grpc-go on loopback TCP between the real Run and the real ServiceReplica (no fake transport); the harness's stream wrapper, "
+                "WaitCloser/Logger wrappers of the follower and Input/Channel wrappers of the leader",
                 "history oracle of the harness (two run ids differ at every offset) and its file parser for the disk backend"],
     "assumptions": ["regenerated: preSync's gap threshold (Gen/ReplicaConsts.lean, used by the model); compared with expectation: response code numbers "
                     "and the ordered list of channel calls / Sends / handleResp arities / guarding conditions of every ReplicaLeader and "
-                    "ReplicaFollower method (a change means the model has to be re-read)",
-                    "model tied by correspondence (hand-written transcription of syncer/replica.go, channel.go, pkg/store SetRunId/DelRunId/VerifyRunId, "
-                    "memory_channel.go StartPoint/SetRunId/DelRunId)",
-                    "a leader's cache is a faithful copy of the source's history (C05/C06/C08) and does not change during one follower session",
-                    "cache contents at the abstraction of C05's Log: one contiguous byte range + optional snapshot per run id; segment rotation, "
-                    "reference counts and the collector are C05's",
-                    "the follower's store is observed after it re-reads its directory (StartPoint -> VerifyRunId), as every next user of the channel does",
-                    "model of the repaired behaviour: D16 (preSync relabelling), CLEAR answer taken as snapshot announcement, D14 (C05, memory backend keeps "
-                    "an interrupted snapshot)"],
+                    "ReplicaFollower method, Run's state assignments and ServiceReplica's gate (a change means the model has to be re-read)",
+                    "model tied by correspondence (hand-written transcription of syncer/replica.go, syncer_replica.go, channel.go, pkg/store "
+                    "SetRunId/DelRunId/VerifyRunId, memory_channel.go StartPoint/SetRunId/DelRunId)",
+                    "the cache a leader's reader is opened on is a faithful copy of the source's history of the channel's run id (C05/C06/C08); the "
+                    "leader may change between and inside requests (four read points per request), but a stream reader that is already open is "
+                    "modelled as serving its own run id to the end (plus the tail appended meanwhile): what the channel does to OPEN readers when "
+                    "its input re-scans or relabels the cache is C05's (finding 're-scan with readers open')",
+                    "cache contents at the abstraction of C05's Log: one contiguous byte range + optional snapshot per run id (contiguity of the "
+                    "store is by this representation plus the theorem that the stream writer is only opened at its end; the harness's file parser "
+                    "and the API/file comparison check it on the real store); segment rotation, reference counts and the collector are C05's",
+                    "the follower's store is observed while Run pauses after its error, after it re-reads its directory (StartPoint -> "
+                    "VerifyRunId), as every next user of the channel does",
+                    "messages the follower does not read (after the first message of a handshake, after a non-META first answer — e.g. what Handle "
+                    "goes on sending after selfInspection's CLEAR) are not part of the compared trace",
+                    "model of the repaired behaviour: D16 (preSync relabelling), CLEAR answer taken as snapshot announcement, reader of another run id "
+                    "streamed by sendData (all three fixed in /repo), D14 (C05)",
+                    "not generated: leader/follower Stop() in the middle of a transfer (clean EOF), transfers above 1 MiB (pipe back-pressure), "
+                    "FAULT answers (only produced on Send failures / reader errors)"],
     "partial": [],
 }
 
 MANIFEST = {
-    "text": "Lean theorems over ALL histories, leader states, follower stores, chunkings, interruption points and sequences of sessions: "
-            "whatever the follower holds under a run id stays byte-identical to that id's history (per id: bytes never move between ids), its "
-            "stream writer is only ever opened at the end of its data (contiguous), a copy under another id is discarded by preSync, an ahead "
-            "follower gets HANDOVER and keeps its cache. The model (leader handler, follower state machine, run-id operations of both backends) is "
-            "tied to the real ReplicaLeader/ReplicaFollower running in-process over both real channel backends by differential correspondence of "
-            "every message, outcome and resulting store, cut after every message; independent monitors check faithfulness/contiguity directly.",
-    "note": "trusted: Lean kernel (propext, Classical.choice, Quot.sound only), fake gRPC transport, harness oracle; model hand-written (correspondence); "
-            "leader cache assumed faithful and static within a session",
-    "technique": "Lean 4 proof (invariant over the session function, induction on metaSync rounds and on session lists) + differential correspondence + monitors",
+    "text": "Lean theorems over ALL histories, leader states (changing between and inside requests), follower stores, chunkings, interruption "
+            "points and sequences of sessions/restarts/own appends: whatever the follower holds under a run id stays byte-identical to that id's "
+            "history (per id: bytes never move between ids; no directory of another id is created or changed), its stream writer is only ever "
+            "opened at the end of its data, a copy under another id / collected at the leader / more than 10 MiB behind is discarded, a CLEAR "
+            "answer deletes, an uninterrupted session ends with the follower exactly at the leader's end (resynchronises), an ahead follower gets "
+            "HANDOVER and keeps its cache. The model is tied to the real ReplicaFollower.Run and the real ServiceReplica/Handle talking over real "
+            "gRPC on both channel backends by differential correspondence of every message read, outcome and resulting store, cut after every "
+            "message, with the leader's own input acting between Handle's reads; independent monitors check faithfulness/contiguity directly.",
+    "note": "trusted: Lean kernel (propext, Classical.choice, Quot.sound only), grpc-go, harness wrappers and oracle; model hand-written "
+            "(correspondence); a leader's cache assumed faithful to its channel id, open readers assumed to serve their own id (C05)",
+    "technique": "Lean 4 proof (invariant over the session function, induction on metaSync rounds and on step lists, progress by evaluation) + differential correspondence + monitors",
 }
